@@ -162,6 +162,41 @@ def run_real_c13(case):
                         os.kill(p, 9)
                     except OSError:
                         pass
+            # the shell has exited but a background child still holds the output pipes: the task is still
+            # RUNNING; cancelling it now must take the child down too
+            marker3 = "302.%06d" % rng.randrange(10**6)
+            t5 = pool.raw_enqueue("bgchild", "sleep %s &\necho started\nexit 0\n" % marker3, proj.root, time_limit=None, deps=[])
+            pool.wait_states(lambda st: st.get(t5) == "RUNNING", timeout=15)
+            time.sleep(0.6)
+            if pool.states().get(t5) == "RUNNING" and marker_pids(marker3):
+                c = pool.client()
+                c.send("cancel_task", tid=t5)
+                c.close()
+                pool.wait_states(lambda st: st.get(t5) == "CANCELLED", timeout=20)
+                time.sleep(2.0)
+                left = marker_pids(marker3)
+                res.mon("orphans_checked")
+                if left:
+                    res.violation("orphan-process", "2 s after cancelling a task whose shell had exited but whose background child was alive, the child still runs (pids %s)" % left)
+                    for p in left:
+                        try:
+                            os.kill(p, 9)
+                        except OSError:
+                            pass
+            # the same with a time limit
+            marker4 = "303.%06d" % rng.randrange(10**6)
+            t6 = pool.raw_enqueue("bgchild_tl", "sleep %s &\necho started\nexit 0\n" % marker4, proj.root, time_limit=1, deps=[])
+            pool.wait_states(lambda st: st.get(t6) in ("KILLED", "FAILED", "COMPLETED"), timeout=30)
+            time.sleep(2.0)
+            left = marker_pids(marker4)
+            res.mon("orphans_checked")
+            if left:
+                res.violation("orphan-process", "2 s after a task with a lingering background child hit its time limit (state %s), the child still runs (pids %s)" % (pool.states().get(t6), left))
+                for p in left:
+                    try:
+                        os.kill(p, 9)
+                    except OSError:
+                        pass
             # a task that cannot be started (missing working directory) and its dependent
             t3 = pool.raw_enqueue("nowd", "echo hi", os.path.join(proj.root, "does", "not", "exist"), time_limit=None, deps=[])
             t4 = pool.raw_enqueue("afternowd", "echo hi", proj.root, time_limit=None, deps=[t3])
